@@ -65,7 +65,8 @@ class LoopSpec(object):
     (havocked) frame; i is the number of completed iterations."""
 
     def __init__(self, invariant=None, modifies_fields=(), name=None,
-                 extra_havoc=(), lemmas=None, keep=()):
+                 extra_havoc=(), lemmas=None, keep=(), probes=None):
+        self.probes = probes
         self.invariant = invariant
         self.modifies_fields = tuple(modifies_fields)
         self.name = name
@@ -95,6 +96,11 @@ class Interp(object):
         self.written_fields = set()
         self.ghost = {}         # free-form ghost state for stubs
         self.qguards = []
+        self.callstack = []
+        self.db = None
+        self.txn_stack = []
+        self.txn_counter = 0
+        self.interference = False
 
     # ---------------------------------------------------------------- utils
     def fresh(self, base, ty, nullable=False):
@@ -118,7 +124,7 @@ class Interp(object):
         lst = SList(n, arr, ety, name)
         if isinstance(ety, tuple) and ety[0] == 'obj':
             j = z3.Int(name + '.j')
-            self.ex.hyp(z3.ForAll([j], z3.And(arr[j] >= 0,
+            self.ex.hyp(ops.forall([j], z3.And(arr[j] >= 0,
                                               arr[j] < _CONCRETE_REF_BASE),
                                   patterns=[arr[j]]))
         return lst
@@ -168,8 +174,20 @@ class Interp(object):
             if isinstance(spec.ty, tuple) and spec.ty[0] == 'obj':
                 j = z3.Int('j!' + 'heap.%s.%s' % key)
                 a = self.heap[key]
-                self.ex.hyp(z3.ForAll([j], z3.And(a[j] >= 0), patterns=[a[j]]))
+                self.ex.hyp(ops.forall([j], z3.And(a[j] >= 0), patterns=[a[j]]))
         return key
+
+    def fld(self, cls, field):
+        """Current z3 array of a declared field (for use in formulas)."""
+        spec = self.field_spec(cls, field)
+        if spec is None:
+            self.undecided('field %s.%s not declared' % (cls, field))
+        return self.heap[self._arr(cls, field, spec)]
+
+    def fld_none(self, cls, field):
+        spec = self.field_spec(cls, field)
+        key = self._arr(cls, field, spec)
+        return self.heap_none[key]
 
     def read_field(self, obj, field):
         if z3.is_int_value(obj.ref):
@@ -303,7 +321,7 @@ class Interp(object):
         w = z3.Const(self.ex.fresh_name('wit.' + name), sort_of(ety))
         x = z3.Const('x!' + str(b), sort_of(ety))
         self.ex.assume(z3.Implies(b, z3.Select(arr, w)))
-        self.ex.hyp(z3.Implies(z3.Not(b), z3.ForAll(
+        self.ex.hyp(z3.Implies(z3.Not(b), ops.forall(
             [x], z3.Not(z3.Select(arr, x)), patterns=[z3.Select(arr, x)])))
         return b
 
@@ -447,6 +465,8 @@ class Interp(object):
                 return -v
             return Sym(-v.t, v.ty)
         if isinstance(node.op, ast.Invert):
+            if self.is_foreign(v):
+                return self.real_call(_op.invert, [v], {}, node, 'sql')
             r = self.call_special(v, '__invert__', [])
             if r is not NotImplemented:
                 return r
@@ -556,7 +576,13 @@ class Interp(object):
         return r
 
     # ----------------------------------------------------------- operators
+    def is_foreign(self, v):
+        f = self.registry.get('is_foreign')
+        return f is not None and f(v)
+
     def binop(self, op, a, b, node=None):
+        if self.is_foreign(a) or self.is_foreign(b):
+            return self.real_call(_PYOPS[type(op)], [a, b], {}, node, 'sql')
         if is_concrete(a) and is_concrete(b):
             try:
                 return _PYOPS[type(op)](a, b)
@@ -623,6 +649,11 @@ class Interp(object):
         if isinstance(op, (ast.Is, ast.IsNot)):
             r = self.is_(a, b)
             return self._neg(r) if isinstance(op, ast.IsNot) else self._b(r)
+        if isinstance(op, (ast.Eq, ast.NotEq)) and (
+                self.is_foreign(a) or self.is_foreign(b)):
+            return self.real_call(
+                _op.eq if isinstance(op, ast.Eq) else _op.ne, [a, b], {},
+                node, 'sql')
         if isinstance(op, (ast.Eq, ast.NotEq)):
             r = self.eq(a, b)
             return self._neg(r) if isinstance(op, ast.NotEq) else self._b(r)
@@ -630,6 +661,8 @@ class Interp(object):
             r = self.contains(b, a, node)
             return self._neg(r) if isinstance(op, ast.NotIn) else self._b(r)
         # ordering
+        if self.is_foreign(a) or self.is_foreign(b):
+            return self.real_call(_PYCMP[type(op)], [a, b], {}, node, 'sql')
         if is_concrete(a) and is_concrete(b):
             try:
                 return _PYCMP[type(op)](a, b)
@@ -841,6 +874,8 @@ class Interp(object):
             if not self.ex.branch(z3.Select(v.dom, kt)):
                 self.raise_(KeyError, k)
             return from_term(z3.Select(v.val, kt), v.vty)
+        if isinstance(v, _NestedView):
+            return v.get(self, k)
         if isinstance(v, Native):
             return v.getitem(self, k)
         if isinstance(v, Obj):
@@ -917,7 +952,7 @@ class Interp(object):
             self.ex.assume(z3.Implies(b, z3.And(j >= 0, j < c.len,
                                                  z3.Select(c.arr, j) == xt)))
             q = z3.Int('q!in')
-            self.ex.hyp(z3.Implies(z3.Not(b), z3.ForAll(
+            self.ex.hyp(z3.Implies(z3.Not(b), ops.forall(
                 [q], z3.Implies(z3.And(q >= 0, q < c.len),
                                 z3.Select(c.arr, q) != xt),
                 patterns=[z3.Select(c.arr, q)])))
@@ -1145,15 +1180,23 @@ class Interp(object):
             return self.default_contract(fv.what, args, kwargs)
         self.undecided('call of %r' % (fv,), node)
 
-    def real_call(self, fn, args, kwargs, node=None):
+    def real_call(self, fn, args, kwargs, node=None, mode=None):
         """Call a real library function.  Only allowed when the registry
-        marks it pure and all arguments are real Python objects."""
+        marks it pure and all arguments are real Python objects (symbolic
+        leaves become bind parameters for the SQL builder)."""
         pure = self.registry.get('pure')
         conv = self.registry.get('to_real')
-        if pure is not None and pure(fn):
+        hook = self.registry.get('call_hook')
+        if hook is not None:
+            r = hook(self, fn, args, kwargs)
+            if r is not NotImplemented:
+                return r
+        if mode is None and pure is not None:
+            mode = pure(fn)
+        if mode:
             try:
-                rargs = [conv(self, a) for a in args]
-                rkw = {k: conv(self, a) for k, a in kwargs.items()}
+                rargs = [conv(self, a, mode) for a in args]
+                rkw = {k: conv(self, a, mode) for k, a in kwargs.items()}
             except Undecided:
                 rargs = None
             if rargs is not None:
@@ -1236,6 +1279,7 @@ class Interp(object):
                     self.raise_(TypeError, 'missing keyword-only %s' % p)
         frame = Frame(locals_, clo.env, clo.globals, clo.qualname, clo.module)
         frame.self_cls = owner
+        self.callstack.append(frame)
         self.call_depth += 1
         if self.call_depth > 60:
             self.undecided('call depth exceeded at %s' % clo.qualname)
@@ -1249,6 +1293,7 @@ class Interp(object):
             return None
         finally:
             self.call_depth -= 1
+            self.callstack.pop()
 
     def instantiate(self, cls, args, kwargs, node=None):
         reg = self.registry.get('classes', {})
@@ -1557,7 +1602,20 @@ class Interp(object):
         bound, mutated = source.assigned_names(node.body)
         target_names, _ = source.assigned_names([ast.Expr(node.target)]) \
             if False else (set(_target_names(node.target)), None)
+        # empty containers with a declared element type become symbolic ones
+        hints = self.registry.get('havoc_types', {})
+        for nm in sorted(bound | mutated | set(spec.extra_havoc)):
+            holder = _find_holder(frame, nm)
+            if holder is None or (frame.qualname, nm) not in hints:
+                continue
+            cur = holder.locals[nm]
+            if isinstance(cur, (VDict, VSet, VList)) and not cur.items:
+                holder.locals[nm] = self.typed_empty(
+                    hints[(frame.qualname, nm)], nm)
         # initiation
+        if spec.lemmas is not None:
+            for f in spec.lemmas(self, frame, z3.IntVal(0), seq):
+                self.ex.hyp(f)
         if spec.invariant is not None:
             for k, f in enumerate(spec.invariant(self, frame, z3.IntVal(0), seq)):
                 self.ex.oblige('%s.init.%d' % (name, k), f, 'A')
@@ -1570,7 +1628,12 @@ class Interp(object):
             holder = _find_holder(frame, nm)
             if holder is None:
                 continue
-            holder.locals[nm] = self.havoc_value(holder.locals[nm], nm)
+            try:
+                holder.locals[nm] = self.havoc_value(holder.locals[nm], nm)
+            except Undecided:
+                # not havocable: poison it; a read before the body assigns
+                # it makes the obligation undecided, never wrong
+                holder.locals[nm] = Opaque('havocked local %s' % nm)
             havocked.add(nm)
         for (cname, field) in spec.modifies_fields:
             self.havoc_field(cname, field)
@@ -1608,8 +1671,11 @@ class Interp(object):
         # body completed: frame check + preservation
         self._check_frame(spec, name, pre_written)
         if spec.invariant is not None:
+            info = {}
+            if spec.probes is not None:
+                info['probes'] = spec.probes(self, frame, i, seq)
             for k, f in enumerate(spec.invariant(self, frame, i + 1, seq)):
-                self.ex.oblige('%s.step.%d' % (name, k), f, 'A')
+                self.ex.oblige('%s.step.%d' % (name, k), f, 'A', dict(info))
         raise PathEnd()
 
     def _check_frame(self, spec, name, pre_written):
@@ -1653,14 +1719,17 @@ class Interp(object):
         if isinstance(v, SSet):
             return self.fresh_set(nm, v.ety)
         if isinstance(v, SMap):
-            return self.fresh_map(nm, v.kty, v.vty, v.default)
-        if isinstance(v, VSet) and not v.items:
-            hint = self.registry.get('havoc_types', {}).get(nm)
-            if hint:
-                return self.fresh_set(nm, hint[1])
-        if isinstance(v, (VList, VDict)) and not (
-                v.items if isinstance(v, VList) else v.items):
-            hint = self.registry.get('havoc_types', {}).get(nm)
+            d = v.default
+            if d is not None and d[0] == 'nested':
+                inner = d[4]
+                d = ('nested', d[1], d[2], d[3],
+                     self.fresh_map(nm + '.inner', inner.kty, inner.vty))
+            return self.fresh_map(nm, v.kty, v.vty, d)
+        if isinstance(v, (VList, VDict, VSet)) and not v.items:
+            hint = None
+            for (q, n2), h in self.registry.get('havoc_types', {}).items():
+                if n2 == nm and self.callstack and self.callstack[-1].qualname == q:
+                    hint = h
             if hint is None:
                 self.undecided('cannot havoc empty container %s without a '
                                'type hint' % nm)
@@ -1672,6 +1741,33 @@ class Interp(object):
                 return self.fresh_map(nm, hint[1], hint[2],
                                       hint[3] if len(hint) > 3 else None)
         self.undecided('cannot havoc %s = %r' % (nm, v))
+
+    def typed_empty(self, hint, nm):
+        name = self.ex.fresh_name(nm)
+        if hint[0] == 'set':
+            return SSet(z3.K(sort_of(hint[1]), z3.BoolVal(False)), hint[1], [],
+                        name)
+        if hint[0] == 'map':
+            dom = z3.K(sort_of(hint[1]), z3.BoolVal(False))
+            val = z3.Const(name + '.val0', z3.ArraySort(sort_of(hint[1]),
+                                                        sort_of(hint[2])))
+            return SMap(dom, val, hint[1], hint[2], None, name)
+        if hint[0] == 'nested':
+            # defaultdict(lambda: defaultdict(<const>)) as a map over pairs
+            k1, k2, vty, dflt = hint[1], hint[2], hint[3], hint[4]
+            pty = ('tuple', (k1, k2))
+            inner = SMap(z3.K(sort_of(pty), z3.BoolVal(False)),
+                         z3.K(sort_of(pty), to_term(dflt, vty)), pty, vty,
+                         None, name + '.inner')
+            outer = SMap(z3.K(sort_of(k1), z3.BoolVal(False)),
+                         z3.K(sort_of(k1), z3.IntVal(0)), k1, 'int',
+                         ('nested', k1, k2, dflt, inner), name)
+            return outer
+        if hint[0] == 'list':
+            arr = z3.Const(name + '.arr0', z3.ArraySort(z3.IntSort(),
+                                                        sort_of(hint[1])))
+            return SList(z3.IntVal(0), arr, hint[1], name)
+        self.undecided('type hint %r' % (hint,))
 
     def havoc_field(self, cname, field):
         key = (cname, field)
@@ -1710,10 +1806,10 @@ class Interp(object):
         j = z3.Int('j!' + base)
         x = z3.Const('x!' + base, sort_of(ety))
         # bijection between [0, n) and the members
-        self.ex.hyp(z3.ForAll([j], z3.Implies(
+        self.ex.hyp(ops.forall([j], z3.Implies(
             z3.And(j >= 0, j < n),
             z3.And(z3.Select(arr, e(j)), idx(e(j)) == j)), patterns=[e(j)]))
-        self.ex.hyp(z3.ForAll([x], z3.Implies(
+        self.ex.hyp(ops.forall([x], z3.Implies(
             z3.Select(arr, x),
             z3.And(idx(x) >= 0, idx(x) < n, e(idx(x)) == x)),
             patterns=[z3.Select(arr, x)]))
@@ -1804,18 +1900,18 @@ class Interp(object):
                         self.eval(node.elt, inner)
                 raise PathEnd()
             gd = z_and(*[x for x in guards])
-            self.ex.hyp(z3.ForAll([q], z3.Implies(in_range, ops.z3bool(gd))))
+            self.ex.hyp(ops.forall([q], z3.Implies(in_range, ops.z3bool(gd))))
         if kind == 'dict':
             kty, vty = ty_of(kv), ty_of(vv)
             m = self.fresh_map(name, kty, vty)
             kt, vt = to_term(kv, kty), to_term(vv, vty)
             x = z3.Const('x!' + name, sort_of(kty))
             w = z3.Function(name + '.w', sort_of(kty), z3.IntSort())
-            self.ex.hyp(z3.ForAll([q], z3.Implies(
+            self.ex.hyp(ops.forall([q], z3.Implies(
                 z3.And(in_range, ops.z3bool(cond)), z3.Select(m.dom, kt)),
                 patterns=[kt] if _mentions(kt, q) else None))
             wq = w(x)
-            self.ex.hyp(z3.ForAll([x], z3.Implies(
+            self.ex.hyp(ops.forall([x], z3.Implies(
                 z3.Select(m.dom, x),
                 z3.And(wq >= 0, wq < n,
                        z3.substitute(ops.z3bool(cond), (q, wq)),
@@ -1833,7 +1929,7 @@ class Interp(object):
         if not conds:
             lst = self.fresh_list(name, ety)
             self.ex.assume(lst.len == n)
-            self.ex.hyp(z3.ForAll([q], z3.Implies(
+            self.ex.hyp(ops.forall([q], z3.Implies(
                 in_range, z3.Select(lst.arr, q) == et),
                 patterns=[z3.Select(lst.arr, q)]))
             lst.defn = (q, et)
@@ -1846,17 +1942,17 @@ class Interp(object):
         p = z3.Int('p!' + name)
         p2 = z3.Int('p2!' + name)
         self.ex.assume(m <= n)
-        self.ex.hyp(z3.ForAll([p], z3.Implies(
+        self.ex.hyp(ops.forall([p], z3.Implies(
             z3.And(p >= 0, p < m),
             z3.And(src(p) >= 0, src(p) < n,
                    z3.substitute(ops.z3bool(cond), (q, src(p))),
                    z3.Select(lst.arr, p) == z3.substitute(et, (q, src(p))),
                    pos(src(p)) == p)),
             patterns=[z3.Select(lst.arr, p)]))
-        self.ex.hyp(z3.ForAll([p, p2], z3.Implies(
+        self.ex.hyp(ops.forall([p, p2], z3.Implies(
             z3.And(p >= 0, p < p2, p2 < m), src(p) < src(p2)),
             patterns=[z3.MultiPattern(src(p), src(p2))]))
-        self.ex.hyp(z3.ForAll([q], z3.Implies(
+        self.ex.hyp(ops.forall([q], z3.Implies(
             z3.And(in_range, ops.z3bool(cond)),
             z3.And(pos(q) >= 0, pos(q) < m, src(pos(q)) == q)),
             patterns=[pos(q)]))
@@ -1868,11 +1964,11 @@ class Interp(object):
         in_range = z3.And(q >= 0, q < n)
         x = z3.Const('x!' + name, sort_of(ety))
         w = z3.Function(name + '.w', sort_of(ety), z3.IntSort())
-        self.ex.hyp(z3.ForAll([q], z3.Implies(
+        self.ex.hyp(ops.forall([q], z3.Implies(
             z3.And(in_range, ops.z3bool(cond)), z3.Select(arr, et)),
             patterns=[et] if _mentions(et, q) and not z3.is_var(et) and not et.eq(q) else None))
         wq = w(x)
-        self.ex.hyp(z3.ForAll([x], z3.Implies(
+        self.ex.hyp(ops.forall([x], z3.Implies(
             z3.Select(arr, x),
             z3.And(wq >= 0, wq < n,
                    z3.substitute(ops.z3bool(cond), (q, wq)),
@@ -2139,14 +2235,14 @@ class _ContainerMethod(object):
     def m_issubset(self, I, s, a, k, n):
         sa, sb = I.as_sset(s), I.as_sset(a[0], getattr(s, 'ety', None))
         x = z3.Const('x!subset', sort_of(sa.ety))
-        return I._b(z3.ForAll([x], z3.Implies(sa.arr[x], sb.arr[x])))
+        return I._b(ops.forall([x], z3.Implies(sa.arr[x], sb.arr[x])))
 
     def m_isdisjoint(self, I, s, a, k, n):
         if isinstance(s, VSet) and isinstance(a[0], VSet):
             return s.items.isdisjoint(a[0].items)
         sa, sb = I.as_sset(s), I.as_sset(a[0], getattr(s, 'ety', None))
         x = z3.Const('x!disj', sort_of(sa.ety))
-        return I._b(z3.ForAll([x], z3.Not(z3.And(sa.arr[x], sb.arr[x]))))
+        return I._b(ops.forall([x], z3.Not(z3.And(sa.arr[x], sb.arr[x]))))
 
     def m_union(self, I, s, a, k, n):
         r = s
@@ -2370,10 +2466,10 @@ def _b_set(I, a, k, n):
             x = z3.Const('kx!' + name, sort_of(d.kty))
             y = z3.Const('vy!' + name, sort_of(d.vty))
             w = z3.Function(name + '.w', sort_of(d.vty), sort_of(d.kty))
-            I.ex.hyp(z3.ForAll([x], z3.Implies(
+            I.ex.hyp(ops.forall([x], z3.Implies(
                 z3.Select(d.dom, x), z3.Select(s.arr, z3.Select(d.val, x))),
                 patterns=[z3.Select(d.val, x)]))
-            I.ex.hyp(z3.ForAll([y], z3.Implies(
+            I.ex.hyp(ops.forall([y], z3.Implies(
                 z3.Select(s.arr, y),
                 z3.And(z3.Select(d.dom, w(y)), z3.Select(d.val, w(y)) == y)),
                 patterns=[z3.Select(s.arr, y)]))
@@ -2397,7 +2493,7 @@ def _b_list(I, a, k, n):
         lst = I.fresh_list(name, ety)
         q = z3.Int('q!' + name)
         I.ex.assume(lst.len == seq.len)
-        I.ex.hyp(z3.ForAll([q], z3.Implies(
+        I.ex.hyp(ops.forall([q], z3.Implies(
             z3.And(q >= 0, q < seq.len),
             z3.Select(lst.arr, q) == to_term(seq.element(I, q), ety)),
             patterns=[z3.Select(lst.arr, q)]))
@@ -2554,7 +2650,7 @@ def _b_any(I, a, k, n, want=True):
         # b <=> exists hit ; result = b (any) or not b (all)
         I.ex.assume(z3.Implies(b, z3.And(w >= 0, w < v.len,
                                           hit(z3.Select(v.arr, w)))))
-        I.ex.hyp(z3.Implies(z3.Not(b), z3.ForAll(
+        I.ex.hyp(z3.Implies(z3.Not(b), ops.forall(
             [q], z3.Implies(z3.And(q >= 0, q < v.len),
                             z3.Not(hit(z3.Select(v.arr, q)))),
             patterns=[z3.Select(v.arr, q)])))
